@@ -188,7 +188,7 @@ def _run_watched(exe, args, data, timeout, per_line_timeout, mem_bytes):
     t.start()
     sel = selectors.DefaultSelector()
     sel.register(p.stdout, selectors.EVENT_READ)
-    buf = b""
+    chunks = []
     t_end = time.time() + timeout
     last = time.time()
     status = None
@@ -201,17 +201,17 @@ def _run_watched(exe, args, data, timeout, per_line_timeout, mem_bytes):
             break
         if not sel.select(timeout=wait):
             continue
-        chunk = os.read(fd, 1 << 16)
+        chunk = os.read(fd, 1 << 20)
         if not chunk:
             break
         if b"\n" in chunk:
             last = time.time()
-        buf += chunk
+        chunks.append(chunk)
     if status == "hang":
         p.kill()
     p.wait()
     sel.close()
-    out = buf.decode("utf-8", "replace").split("\n")
+    out = b"".join(chunks).decode("utf-8", "replace").split("\n")
     tail = out.pop() if out else ""      # text after the last newline: an incomplete line (dropped)
     return out, status
 
@@ -277,7 +277,87 @@ def harness(run, profile="release"):
     return exe
 
 
-def both(run, requests, label, profile="release", isolate=False, canon=None, timeout=1800, compare=True):
+BAD_ID = (63 << 58) | (1 << 56)          # top six bits 63: no origin - rejected by every id-taking call
+STATEFUL_OPS = ("hist", "threads", "memo_fill", "consts")
+
+
+def _poison(q, rng):
+    """a request of the same family as `q` that the library must reject (or answer) without leaving any trace: used to
+    perturb the call history in the reordered pass"""
+    t = q.split()
+    op = t[0]
+    try:
+        if op == "compact" and len(t) >= 2:
+            # valid cells first, then an id the call must reject
+            return "compact " + ",".join(t[1].split(",")[: 6] + [str(BAD_ID)])
+        if op == "uncompact" and len(t) >= 3:
+            # the rejected id comes first: the valid cells behind it must not be expanded (nor pre-counted into an allocation)
+            return "uncompact " + ",".join([str(BAD_ID)] + t[1].split(",")[: 6]) + f" {t[2]}"
+        if op in ("cell_to_children", "cell_to_parent") and len(t) >= 3:
+            return rng.choice([f"{op} {BAD_ID} {t[2]}", f"{op} {t[1]} 31", f"{op} {int(t[1]) | 1} {t[2]}", f"{op} {int(t[1]) >> 58 << 58 | 1 << 57} {t[2]}"])
+        if op == "cell_to_boundary" and len(t) >= 4:
+            return rng.choice([f"{op} {t[1]} {1 - int(t[2])} {rng.choice([1, 2, 3])}", f"{op} {BAD_ID} {t[2]} {t[3]}", f"cell_to_boundary_default {t[1]}"])
+        if op in ("cell_to_lonlat", "cell_to_boundary_default", "deserialize", "get_resolution") and len(t) >= 2:
+            return rng.choice([f"{op} {BAD_ID}", f"{op} {int(t[1]) >> 58 << 58 | 1 << 57}", f"cell_to_boundary {t[1]} 1 1"])
+        if op == "lonlat_to_cell" and len(t) >= 4:
+            return rng.choice([f"{op} {t[1]} {t[2]} 30", f"{op} {t[1]} {t[2]} -2", f"{op} {t[2]} {t[1]} {t[3]}"])
+        if op == "contains" and len(t) >= 4:
+            return f"{op} {BAD_ID} {t[2]} {t[3]}"
+        if op in ("dodeca_forward", "dodeca_inverse") and len(t) >= 4:
+            return f"{op} {t[1]} {t[2]} {rng.choice([12, 23, (int(t[3]) + 1) % 12])}"
+        if op in ("s_to_anchor",) and len(t) >= 4:
+            return f"{op} {t[1]} {t[2]} {(int(t[3]) + rng.randrange(1, 6)) % 6}"
+        if op in ("ij_to_s",) and len(t) >= 5:
+            return f"{op} {t[1]} {t[2]} {t[3]} {(int(t[4]) + rng.randrange(1, 6)) % 6}"
+        if op == "hex_to_u64":
+            return "hex_to_u64 zz"
+    except (ValueError, IndexError):
+        pass
+    return None
+
+
+def reordered_pass(run, exe, requests, model, canon, label, isolate, timeout):
+    """The model is a pure function of each request, so the implementation's answer must not depend on the calls made before:
+    run a sample of the requests again in a different order, each followed (sometimes) by its own duplicate or by a related
+    call the library must reject, and compare with the model's answers.  A difference is a result that depends on history."""
+    rng = random.Random(run.seed * 7919 + len(requests))
+    pure = [i for i, q in enumerate(requests) if q.split()[0] not in STATEFUL_OPS and len(q) < 20000 and len(model[i]) < 30000]
+    cap = run.n(4000, 40000)
+    if len(pure) > cap:
+        pure = rng.sample(pure, cap)
+    rng.shuffle(pure)
+    seq, back = [], []
+    for i in pure:
+        q = requests[i]
+        r = rng.random()
+        if r < 0.25:
+            pz = _poison(q, rng)
+            if pz:
+                seq.append(pz); back.append(None)
+        seq.append(q); back.append(i)
+        if r > 0.85:
+            seq.append(q); back.append(i)          # the same call twice in a row
+    # line-flushed, so that a crash or hang is attributed to the request that caused it and nothing else is lost
+    out = run_stream(exe, seq, args=["--flush"], timeout=timeout, isolate=True, mem_bytes=(2 << 30) if isolate else (6 << 30),
+                     per_line_timeout=60, max_hangs=3)
+    bad = 0
+    for k, (i, a) in enumerate(zip(back, out)):
+        if i is None or a == "lost":
+            continue
+        q = requests[i]
+        ca, cb = (canon(q, a), canon(q, model[i])) if canon else (a, model[i])
+        if ca != cb:
+            bad += 1
+            prev = seq[max(0, k - 3): k]
+            run.corr_disagreements.append({"request": q, "impl": a[:2000], "model": model[i][:2000], "suite": label + " [reordered pass]", "history": prev})
+            if bad <= 5:
+                run.violation("the result of a call depends on the calls made before it (same request, different answer after a different history; the pure model gives the other answer)",
+                              prev + [q], a[:300], {"answer_of_the_model": model[i][:300]})
+    run.corr_cases += len(seq)
+    run.extra["reordered_pass_requests"] = run.extra.get("reordered_pass_requests", 0) + len(seq)
+
+
+def both(run, requests, label, profile="release", isolate=False, canon=None, timeout=1800, compare=True, reorder=True):
     """Run the same request lines through the implementation (harness) and the model (Lean driver)."""
     exe = harness(run, profile)
     if isolate:
@@ -286,7 +366,11 @@ def both(run, requests, label, profile="release", isolate=False, canon=None, tim
         impl = run_stream(exe, requests, timeout=timeout, isolate=True, mem_bytes=6 << 30)
     model = run_driver(requests, timeout=timeout)
     if compare:
+        n0 = len(run.corr_disagreements)
         run.correspond(requests, impl, model, canon, label)
+        # only when the straight pass agrees everywhere is a difference in the reordered pass attributable to the history
+        if reorder and len(run.corr_disagreements) == n0 and len(requests) > 1:
+            reordered_pass(run, exe, requests, model, canon, label, isolate, timeout)
     return impl, model
 
 
